@@ -40,7 +40,10 @@ fn variants(which: usize, n: usize, rng: &mut Rng) -> Kind {
         _ => match rng.below(4) {
             0 | 1 => Kind::Alma(n),
             2 => Kind::AlmaCustom(n, 2.0, 0.5),
-            _ => Kind::AlmaCustom(n, *rng.pick(&[2.0, 4.0, 6.0]), *rng.pick(&[0.5, 0.85, 1.0])),
+            // (a narrow kernel included: with sigma 16 the tail weights are as small as 1e-220 and, while
+            // the window fills, they are the only weights there are; beyond sigma = 22 the first weight
+            // of a window of 1 underflows to 0 in f64 as well - known finding 17, not driven here)
+            _ => Kind::AlmaCustom(n, *rng.pick(&[2.0, 4.0, 6.0, 16.0]), *rng.pick(&[0.0, 0.5, 0.85, 1.0])),
         },
     }
 }
